@@ -58,8 +58,8 @@ def make_world(model, spec, set_env=True):
             env = LineWorld(model, w, wrap_env=wrap)
         else:
             env = GridWorld(model, w, h, wrap_env=wrap)
-    if set_env:
-        model.environment = env
+    if set_env and spec.get("attached", True):
+        model.environment = env     # otherwise the model keeps its default void Environment and the world is a second layer
     return env
 
 
